@@ -203,7 +203,7 @@ func (m *UDPMuxDefault) GetConn(ufrag string, addr net.Addr) (net.PacketConn, er
 		go func() {
 			<-muxedConn.CloseChannel()
 			verifhook.Yield("udpmux.closeWatcher.beforeRemove")
-			m.RemoveConnByUfrag(ufrag)
+			m.removeClosedConn(ufrag, isIPv6, muxedConn)
 		}()
 
 		if isIPv6 {
@@ -258,6 +258,30 @@ func (m *UDPMuxDefault) RemoveConnByUfrag(ufrag string) {
 			if m.addressMap[addr] == c {
 				delete(m.addressMap, addr)
 			}
+		}
+	}
+}
+
+// removeClosedConn unregisters conn after it was closed. Only this connection is
+// removed: the connection of the other IP family under the same ufrag, or a newer
+// connection registered under the ufrag in the meantime, stay registered.
+func (m *UDPMuxDefault) removeClosedConn(ufrag string, isIPv6 bool, conn *udpMuxedConn) {
+	m.mu.Lock()
+	if isIPv6 {
+		if m.connsIPv6[ufrag] == conn {
+			delete(m.connsIPv6, ufrag)
+		}
+	} else if m.connsIPv4[ufrag] == conn {
+		delete(m.connsIPv4, ufrag)
+	}
+	m.mu.Unlock()
+
+	m.addressMapMu.Lock()
+	defer m.addressMapMu.Unlock()
+
+	for _, addr := range conn.getAddresses() {
+		if m.addressMap[addr] == conn {
+			delete(m.addressMap, addr)
 		}
 	}
 }
